@@ -2,8 +2,7 @@
     mailbox state between calls (each call builds a fresh mbox and re-reads the index); in the model
     this is the fact that every operation is a function of the disk alone, so a reopen is the
     identity on the only state there is. *)
-From IV Require Import Base.Bytes Base.BytesFacts Model.FileDisk
-  Proofs.FileDiskMap Proofs.FileDiskInv Proofs.FileDiskSteps Proofs.FileDiskOps Proofs.FileDiskCrash.
+From IV Require Import Base.Bytes Base.BytesFacts Model.FileDisk Proofs.FileDiskMap Proofs.FileDiskInv Proofs.FileDiskSteps Proofs.FileDiskOps Proofs.FileDiskCrash.
 From Coq Require Import List NArith Bool Lia.
 Import ListNotations.
 
@@ -232,3 +231,112 @@ End Durable.
 
 (** The walk is complete on every reachable disk: Proofs/FileDiskParents.v, theorem [visit_complete]
     (Props/C10/visit_complete). *)
+
+(** * The cap may differ from one operation to the next (it is configuration, read at start-up)
+    [reach] fixes one cap; [reachV] lets every operation — completed or killed — run under its own cap. *)
+Inductive reachV (enc : index -> str) (dec : str -> option index) (hash : str -> str) : disk -> Prop :=
+| reachV_init : reachV enc dec hash []
+| reachV_step cap d o d' :
+    reachV enc dec hash d -> crash_reach (steps enc dec hash cap o d) d d' -> reachV enc dec hash d'.
+
+Lemma reachV_Inv : forall (enc : index -> str) (dec : str -> option index), (forall i, dec (enc i) = Some i) ->
+  forall (hash : str -> str) (d : disk), reachV enc dec hash d -> Inv dec d.
+Proof.
+  intros enc dec Hde hash d H. induction H; [apply Inv_empty | eapply (crash_Inv enc dec Hde hash cap); eauto].
+Qed.
+
+Lemma reach_reachV enc dec hash cap d : reach enc dec hash cap d -> reachV enc dec hash d.
+Proof. induction 1; [constructor | econstructor; eauto]. Qed.
+
+(** THE durability theorem, for a cap that may change at every operation: on every disk the store can ever
+    leave behind (any history of completed and killed operations under any caps — in particular after any
+    number of stops and starts, which touch nothing but memory) every operation, under whatever cap is
+    configured now, runs without a failing file-system step, leaves such a disk again, changes its mailbox
+    exactly as the ordered-map operation [post_view] says — the old listing with the same order, ids,
+    metadata, flags, sizes and content, minus the cap evictions from the front, plus the new message — and
+    no other mailbox; a delivery leaves at most [cap] messages. *)
+Theorem ops_continue_any_cap : forall (enc : index -> str) (dec : str -> option index), (forall i, dec (enc i) = Some i) ->
+  forall (hash : str -> str) (d : disk) (cap : nat) (o : op),
+  reachV enc dec hash d ->
+  exists nm ms,
+    read_index dec d (mailbox_of hash o) (op_mailbox o) = Some (nm, ms) /\
+    view dec d (mailbox_of hash o) = Some (mkview d (mailbox_of hash o) nm ms) /\
+    run (steps enc dec hash cap o d) d = Some (exec enc dec hash cap o d) /\
+    reachV enc dec hash (exec enc dec hash cap o d) /\
+    view dec (exec enc dec hash cap o d) (mailbox_of hash o) = Some (post_view cap d o (mailbox_of hash o) nm ms) /\
+    (forall h, h <> mailbox_of hash o -> view dec (exec enc dec hash cap o d) h = view dec d h) /\
+    (cap <> O -> forall mb info body cands, o = FileDisk.Add mb info body cands ->
+       (length (post_view cap d o (mailbox_of hash o) nm ms) <= cap)%nat).
+Proof.
+  intros enc dec Hde hash d cap o Hr.
+  pose proof (reachV_Inv enc dec Hde hash d Hr) as HI.
+  destruct (read_index_ok dec d (mailbox_of hash o) (op_mailbox o) HI) as [nm [ms Hri]].
+  destruct (exec_views enc dec Hde hash cap d o nm ms HI Hri) as [R [_ [A B]]].
+  assert (HL : Loaded dec d (mailbox_of hash o) nm ms) by (eapply read_index_Loaded; eauto; apply HI).
+  exists nm, ms. split; auto. split; [apply view_Loaded; auto|]. split; auto. split.
+  - eapply reachV_step; eauto. apply crash_reach_run; eauto.
+  - split; auto. split; auto. intros Hc mb info body cands ->. apply post_view_cap; auto.
+Qed.
+
+(** * What "the store keeps no state between calls" means for ANY implementation with memory
+    An implementation may keep in-memory state of any kind ([M]: a cache, a memo, a remembered directory
+    listing). If that memory is COHERENT with the disk — [coh] holds initially after every (re)start, is
+    preserved by every item, and under it the implementation answers as the disk model — then reopening
+    (memory re-initialised from the disk) at any positions changes no observation. The real file store is
+    the instance M = unit; the seeded defects C10-g1 (directory listing remembered from a partial set) and
+    C10-k1 (memoised mailbox objects loaded without the lock) are memories that are NOT coherent after a
+    restart, which is what the correspondence run detects. *)
+Section CachedStore.
+  Variable enc : index -> str.
+  Variable dec : str -> option index.
+  Variable hash : str -> str.
+  Variable cap : nat.
+  Variable M : Type.
+  Variable coh : M -> disk -> Prop.
+  Variable m_start : disk -> M.                               (* memory of a freshly constructed store object *)
+  Variable m_step : M -> disk -> item -> M.                   (* what an item does to the memory *)
+  Variable m_obs : M -> disk -> item -> list obs.             (* what the implementation answers *)
+  Hypothesis coh_start : forall d, coh (m_start d) d.
+  Hypothesis coh_step : forall m d it, coh m d -> coh (m_step m d it) (run_item enc dec hash cap d it).
+  Hypothesis obs_ok : forall m d it, coh m d -> m_obs m d it = observations enc dec hash cap d [it].
+
+  Fixpoint m_run (m : M) (d : disk) (its : list item) : list obs :=
+    match its with
+    | [] => []
+    | IReopen :: r => m_run (m_start d) d r
+    | it :: r => m_obs m d it ++ m_run (m_step m d it) (run_item enc dec hash cap d it) r
+    end.
+
+  Lemma observations_cons d it r :
+    observations enc dec hash cap d (it :: r) =
+    observations enc dec hash cap d [it] ++ observations enc dec hash cap (run_item enc dec hash cap d it) r.
+  Proof. destruct it; simpl; reflexivity. Qed.
+
+  Theorem cached_store_transparent its : forall m d, coh m d ->
+    m_run m d its = observations enc dec hash cap d (strip its).
+  Proof.
+    induction its as [|it r IH]; intros m d Hc; [reflexivity|].
+    destruct it as [o| |].
+    - cbn [m_run strip filter]. change (filter _ r) with (strip r). rewrite observations_cons.
+      rewrite (obs_ok m d (IOp o) Hc). f_equal. apply IH. apply coh_step; auto.
+    - cbn [m_run strip filter]. change (filter _ r) with (strip r). apply IH. apply coh_start.
+    - cbn [m_run strip filter]. change (filter _ r) with (strip r). rewrite observations_cons.
+      rewrite (obs_ok m d IVisit Hc). f_equal. apply IH. apply (coh_step m d IVisit); auto.
+  Qed.
+End CachedStore.
+
+(** Reopen transparency with content: for EVERY implementation that keeps memory of any kind [M] between
+    calls — as long as that memory is coherent with the disk after every (re)start and after every item, and
+    coherent memory answers as the disk model — a history with reopens (memory re-initialised from the disk)
+    at any positions yields exactly the observations of the disk model on the history without them: results,
+    whole disks (listings, ids, metadata, flags, sizes, content) and visit walks. *)
+Theorem reopen_transparent_cached :
+  forall (enc : index -> str) (dec : str -> option index) (hash : str -> str) (cap : nat)
+         (M : Type) (coh : M -> disk -> Prop) (m_start : disk -> M) (m_step : M -> disk -> item -> M)
+         (m_obs : M -> disk -> item -> list obs),
+    (forall d, coh (m_start d) d) ->
+    (forall m d it, coh m d -> coh (m_step m d it) (run_item enc dec hash cap d it)) ->
+    (forall m d it, coh m d -> m_obs m d it = observations enc dec hash cap d [it]) ->
+  forall (its : list item) (m : M) (d : disk), coh m d ->
+    m_run enc dec hash cap M m_start m_step m_obs m d its = observations enc dec hash cap d (strip its).
+Proof. intros. eapply cached_store_transparent; eauto. Qed.
